@@ -22,7 +22,10 @@ RULE = ("one case = one mesh (library structured generator or harness Delaunay g
         "scalar/vector/tensor nodal and cell fields (1-, 2- or 3-D components, numpy or jax containers, the numpy dtype that "
         "corresponds to the declared VTKDataType, values over the whole range of the type), 0-3 spheres, 0-5 contact edges "
         "(added in one or two calls), 1-3 consecutive write() calls. Structured classes pin the ingredients of D11a/b/c/d so "
-        "each mechanism is exercised on its own. Non-trivial = the file carries at least one data array or sphere or contact "
+        "each mechanism is exercised on its own; class 'history' = random sequences (3-8 operations) of add_nodal_field / add_cell_field "
+        "(30% overwrite an existing name with new kind/type/data) / add_sphere / add_contact_edges / write / change of fileName on one "
+        "or two interleaved writers of the same mesh, with a write() after every operation and each file compared with the harness's "
+        "shadow model of that writer so far. Non-trivial = the file carries at least one data array or sphere or contact "
         "edge; distinct = canonical hash of the case parameters (seeded).")
 ASSUMPTIONS = [
     "the reader in vlib/oracles/c20_vtkparse.py implements the legacy-VTK 'simple legacy formats' grammar for ASCII unstructured grids "
@@ -42,7 +45,10 @@ REQUIRED = {
             "cfg_highorder_spheres": 10, "cfg_cellfields_and_edges": 10, "cfg_bare": 4, "cfg_uint64_padded": 4,
             "kind_SCALARS": 40, "kind_VECTORS": 40, "kind_TENSORS": 40, "container_jax": 20, "parser_selftest_runs": 1,
             "class:random": 10, "class:d11a_rewrite": 4, "class:d11b_highorder_spheres": 4, "class:d11c_celldata_edges": 4,
-            "class:each_dtype": 11, "class:uint64_padded": 2, "class:bare": 2},
+            "class:each_dtype": 11, "class:uint64_padded": 2, "class:bare": 2, "class:history": 10,
+            "histories": 60, "histories_two_writers_interleaved": 10, "history_ops": 250,
+            "write_after_nodal": 20, "write_after_cell": 20, "write_after_overwrite": 8, "write_after_sphere": 15,
+            "write_after_edges": 30, "write_after_write": 12, "write_after_rename": 8, "write_after_nothing": 20},
 }
 for _t in ("bit", "unsigned_char", "char", "unsigned_short", "short", "unsigned_int", "int", "unsigned_long", "long", "float", "double"):
     REQUIRED["all"]["dtype_" + _t] = 6
@@ -69,6 +75,7 @@ def build_cases(tier, seed):
     add("d11a_rewrite", 8 if q else 600, 4)
     add("d11b_highorder_spheres", 8 if q else 600, 4)
     add("d11c_celldata_edges", 8 if q else 600, 4)
+    add("history", 24 if q else 6000, 4)
     add("uint64_padded", 4 if q else 60, 4)
     add("bare", 4 if q else 16, 2)
     # every data type x field kind x nodal/cell at least once, without any padding
@@ -161,7 +168,7 @@ def _config_for(case, rng, order):
     cls = case["cls"]
     cfg = {"n_nodal": int(rng.integers(0, 5)), "n_cell": int(rng.integers(0, 4)), "n_sph": int(rng.integers(0, 4)),
            "n_edges": int(rng.integers(0, 6)), "n_writes": int(rng.integers(1, 4)), "dtypes": None,
-           "allow_u64_pad": cls == "uint64_padded" or (cls == "random" and bool(rng.random() < 0.15))}
+           "allow_u64_pad": True}
     if cls == "d11a_rewrite":
         cfg.update(n_nodal=int(rng.integers(1, 4)), n_sph=int(rng.integers(1, 4)), n_writes=int(rng.integers(2, 4)))
         if rng.random() < 0.5:
@@ -206,35 +213,153 @@ def _area2(p, q, r):
     return (q[0] - p[0]) * (r[1] - p[1]) - (r[0] - p[0]) * (q[1] - p[1])
 
 
-# ------------------------------------------------------------------------------------------------------------- one writer
+# ------------------------------------------------------------------------------------------- shadow model of a writer
 
-def _one_writer(res, case, rng, mesh, order, tmpdir, tag):
+class _Geo:
+    """Per-mesh facts the comparison needs, computed without the writer."""
+    def __init__(self, mesh, order):
+        self.mesh = mesh
+        self.order = order
+        self.coords = onp.asarray(mesh.coords)
+        self.conns = onp.asarray(mesh.conns)
+        self.nN, self.nE = self.coords.shape[0], self.conns.shape[0]
+        # vertex nodes: largest-area triple of every element
+        self.vloc = [_vertex_triples(self.coords[self.conns[e]]) for e in range(self.nE)]
+        vert_nodes = sorted({int(self.conns[e][k]) for e in range(self.nE) for k in self.vloc[e]})
+        self.written_nodes_expected = list(range(self.nN)) if order <= 2 else vert_nodes
+        # genuine element edges between vertex nodes (node ids of the mesh, as a contact search would return them)
+        self.edge_pool = []
+        for e in range(self.nE):
+            v = [int(self.conns[e][k]) for k in self.vloc[e]]
+            self.edge_pool += [(v[0], v[1]), (v[1], v[2]), (v[2], v[0])]
+
+
+class _Shadow:
+    """What the harness has handed to one writer so far."""
+    def __init__(self):
+        self.nodal, self.cell = {}, {}
+        self.spheres, self.radii, self.edges = [], [], []
+
+    def ctx(self, geo, **kw):
+        d = {"order": geo.order, "n_nodes": geo.nN, "n_elems": geo.nE, "spheres": len(self.spheres), "edges": len(self.edges),
+             "nodal": {k: (v["kind"], v["dtype"]) for k, v in self.nodal.items()},
+             "cell": {k: (v["kind"], v["dtype"]) for k, v in self.cell.items()}}
+        d.update(kw)
+        return d
+
+
+def _add_field(res, w, rng, sh, geo, what, dts=None, kind=None, p_replace=0.08, allow_u64_pad=True, will_pad=False):
+    """add_nodal_field / add_cell_field with fresh data; returns 'overwrite' if an existing name was replaced."""
     import jax.numpy as jnp
     from optimism import VTKWriter
+    FT, DT = VTKWriter.VTKFieldType, VTKWriter.VTKDataType
+    nrec = geo.nN if what == "nodal" else geo.nE
+    pool = dts or DTYPES
+    dt = pool[int(rng.integers(0, len(pool)))] if not (dts is None and rng.random() < 0.35) else "DOUBLE"
+    if kind is None:
+        kind = KINDS[int(rng.integers(0, 3))]
+    store = sh.nodal if what == "nodal" else sh.cell
+    replaced = False
+    if store and rng.random() < p_replace:
+        name = list(store)[int(rng.integers(0, len(store)))]      # re-adding a name replaces the record (new kind/type/data)
+        res.count("field_replaced")
+        replaced = True
+    else:
+        name = "%s%d_%s" % ("n" if what == "nodal" else "c", len(store), ["u", "sigma", "eqps", "T", "id"][int(rng.integers(0, 5))])
+    if dt == "UNSIGNED_LONG" and will_pad and not allow_u64_pad:
+        dt = "LONG"
+    data, exp = _make_field(rng, nrec, kind, dt)
+    use_jax = bool(rng.random() < 0.3)
+    arg = jnp.array(data) if use_jax else data.copy()
+    if use_jax and onp.asarray(arg).dtype != data.dtype:
+        arg = data.copy()
+        use_jax = False
+    res.count("container_jax" if use_jax else "container_numpy")
+    res.count("dtype_" + dt.lower())
+    res.count("kind_" + kind)
+    kw = {} if (dt == "DOUBLE" and rng.random() < 0.5) else {"dataType": getattr(DT, dt)}
+    if what == "nodal":
+        w.add_nodal_field(name, arg, getattr(FT, kind), **kw)
+    else:
+        w.add_cell_field(name, arg, getattr(FT, kind), **kw)
+    store[name] = {"kind": kind, "dtype": dt.lower(), "exp": exp}
+    return "overwrite" if replaced else what
+
+
+def _add_sphere(w, rng, sh):
+    import jax.numpy as jnp
+    x = onp.array([rng.uniform(-3, 3), rng.uniform(-3, 3)])
+    r = float(10.0 ** rng.uniform(-3, 1))
+    w.add_sphere(jnp.array(x) if rng.random() < 0.3 else x, r)
+    sh.spheres.append([float(x[0]), float(x[1]), 0.0])
+    sh.radii.append(r)
+
+
+def _add_edges(w, rng, sh, geo, part=None, n=None):
+    import jax.numpy as jnp
+    if part is None:
+        sel = rng.choice(len(geo.edge_pool), size=n, replace=len(geo.edge_pool) < n)
+        part = onp.array([geo.edge_pool[i] for i in sel], dtype=int).reshape(-1, 2)
+    w.add_contact_edges(jnp.array(part) if rng.random() < 0.3 else part)
+    sh.edges += [tuple(int(v) for v in row) for row in part]
+
+
+def _diff_detail(a_blob, b_blob):
+    a, b = a_blob.split(b"\n"), b_blob.split(b"\n")
+    first = next((i for i, (x, y) in enumerate(zip(a, b)) if x != y), min(len(a), len(b)))
+    return {"lines": [len(a), len(b)], "first_diff_line": first + 1,
+            "a": a[first].decode(errors="replace")[:80] if first < len(a) else None,
+            "b": b[first].decode(errors="replace")[:80] if first < len(b) else None}
+
+
+def _check_blob(res, blob, sh, geo, k, **ctxkw):
+    """Parse one written file and compare it with the shadow model as it stands now."""
     from vlib.oracles import c20_vtkparse as P
+    ctx = sh.ctx(geo, **ctxkw)
+    u64_nodal = {n for n, r in sh.nodal.items() if r["dtype"] == "unsigned_long" and sh.spheres}
+    u64_cell = {n for n, r in sh.cell.items() if r["dtype"] == "unsigned_long" and sh.edges}
+    try:
+        text = blob.decode("ascii")
+        if "\r" in text:
+            raise P.VTKFormatError("header", "carriage return in file")
+        parsed = P.parse_text(text)
+    except UnicodeDecodeError:
+        res.violate("wellformed:header", dict(ctx, write=k + 1, error="non-ASCII bytes"))
+        return
+    except P.VTKFormatError as e:
+        res.checks += 1
+        res.violate("wellformed:" + e.clause, dict(ctx, write=k + 1, error=e.message[:300], at=e.context))
+        return
+    res.checks += 1
+    res.count("files_parsed")
+    for s in parsed["soft_errors"]:
+        nm = s.get("array", "").split("/")[-1]
+        known = (s["clause"] == "value_token_type" and s.get("dtype") == "unsigned_long" and "floating-point literal" in s.get("why", "")
+                 and ((s.get("section") == "POINT_DATA" and nm in u64_nodal) or (s.get("section") == "CELL_DATA" and nm in u64_cell)))
+        res.expect("wellformed:" + s["clause"], False, dict(ctx, write=k + 1, error=s), mechanism=K_D11D if known else None)
+    _compare(res, parsed, ctx, k, geo.coords, geo.conns, geo.order, geo.vloc, geo.written_nodes_expected, sh.nodal, sh.cell,
+             list(sh.spheres), list(sh.radii), list(sh.edges), u64_nodal, u64_cell)
 
-    coords = onp.asarray(mesh.coords)
-    conns = onp.asarray(mesh.conns)
-    nN, nE = coords.shape[0], conns.shape[0]
+
+def _read(path):
+    with open(path, "rb") as f:
+        return f.read()
+
+
+# ------------------------------------------------------------------------------------------------------------- one writer
+
+def _one_writer(res, case, rng, geo, tmpdir, tag):
+    """All add_* calls in a random order, then 1-3 consecutive write() calls."""
+    from optimism import VTKWriter
+    order = geo.order
     cfg = _config_for(case, rng, order)
-    FT = VTKWriter.VTKFieldType
-    DT = VTKWriter.VTKDataType
-
-    # vertex nodes (independently of the writer): largest-area triple of every element
-    vloc = [_vertex_triples(coords[conns[e]]) for e in range(nE)]
-    vert_nodes = sorted({int(conns[e][k]) for e in range(nE) for k in vloc[e]})
-    written_nodes_expected = list(range(nN)) if order <= 2 else vert_nodes
-
     base = os.path.join(tmpdir, "w%s" % tag)
     problems = []
-    supplied_nodal, supplied_cell = {}, {}
-    spheres, radii, edges = [], [], []
-    u64_nodal, u64_cell = set(), set()
+    sh = _Shadow()
     with warnings.catch_warnings(record=True) as wlist:
         warnings.simplefilter("always")
         try:
-            w = VTKWriter.VTKWriter(mesh, base)
-            # interleave the add_* calls in a random order
+            w = VTKWriter.VTKWriter(geo.mesh, base)
             todo = (["nodal"] * cfg["n_nodal"] + ["cell"] * cfg["n_cell"] + ["sphere"] * cfg["n_sph"])
             n_edge_calls = 0
             if cfg["n_edges"] > 0:
@@ -243,65 +368,26 @@ def _one_writer(res, case, rng, mesh, order, tmpdir, tag):
             todo = [todo[i] for i in rng.permutation(len(todo))]
             edge_split = None
             if cfg["n_edges"] > 0:
-                # genuine element edges between vertex nodes (node ids of the mesh, as a contact search would return them)
-                pool = []
-                for e in range(nE):
-                    v = [int(conns[e][k]) for k in vloc[e]]
-                    pool += [(v[0], v[1]), (v[1], v[2]), (v[2], v[0])]
-                sel = rng.choice(len(pool), size=cfg["n_edges"], replace=len(pool) < cfg["n_edges"])
-                alledges = onp.array([pool[i] for i in sel], dtype=int).reshape(-1, 2)
+                sel = rng.choice(len(geo.edge_pool), size=cfg["n_edges"], replace=len(geo.edge_pool) < cfg["n_edges"])
+                alledges = onp.array([geo.edge_pool[i] for i in sel], dtype=int).reshape(-1, 2)
                 cut = cfg["n_edges"] if n_edge_calls == 1 else int(rng.integers(1, cfg["n_edges"]))
                 edge_split = [alledges[:cut], alledges[cut:]]
             ikind = 0
             for what in todo:
                 if what in ("nodal", "cell"):
-                    nrec = nN if what == "nodal" else nE
-                    dts = cfg["dtypes"] or DTYPES
-                    dt = dts[int(rng.integers(0, len(dts)))] if not (cfg["dtypes"] is None and rng.random() < 0.35) else "DOUBLE"
+                    kind = None
                     if cfg.get("kinds_cycle"):
                         kind = KINDS[ikind % 3]
                         ikind += 1
-                    else:
-                        kind = KINDS[int(rng.integers(0, 3))]
-                    store = supplied_nodal if what == "nodal" else supplied_cell
-                    if store and rng.random() < 0.08:
-                        name = list(store)[int(rng.integers(0, len(store)))]      # re-adding a name replaces the record
-                        res.count("field_replaced")
-                    else:
-                        name = "%s%d_%s" % ("n" if what == "nodal" else "c", len(store), ["u", "sigma", "eqps", "T", "id"][int(rng.integers(0, 5))])
-                    padded = (cfg["n_sph"] > 0) if what == "nodal" else (cfg["n_edges"] > 0)
-                    if dt == "UNSIGNED_LONG" and padded and not cfg["allow_u64_pad"]:
-                        dt = "LONG"      # D11d ingredients stay confined to the classes that own them
-                    data, exp = _make_field(rng, nrec, kind, dt)
-                    use_jax = bool(rng.random() < 0.3)
-                    arg = jnp.array(data) if use_jax else data.copy()
-                    if use_jax and onp.asarray(arg).dtype != data.dtype:
-                        arg = data.copy()
-                        use_jax = False
-                    res.count("container_jax" if use_jax else "container_numpy")
-                    res.count("dtype_" + dt.lower())
-                    res.count("kind_" + kind)
-                    kw = {} if (dt == "DOUBLE" and rng.random() < 0.5) else {"dataType": getattr(DT, dt)}
-                    if what == "nodal":
-                        w.add_nodal_field(name, arg, getattr(FT, kind), **kw)
-                    else:
-                        w.add_cell_field(name, arg, getattr(FT, kind), **kw)
-                    store[name] = {"kind": kind, "dtype": dt.lower(), "exp": exp}
+                    _add_field(res, w, rng, sh, geo, what, dts=cfg["dtypes"], kind=kind)
                 elif what == "sphere":
-                    x = onp.array([rng.uniform(-3, 3), rng.uniform(-3, 3)])
-                    r = float(10.0 ** rng.uniform(-3, 1))
-                    w.add_sphere(jnp.array(x) if rng.random() < 0.3 else x, r)
-                    spheres.append([float(x[0]), float(x[1]), 0.0])
-                    radii.append(r)
+                    _add_sphere(w, rng, sh)
                 elif what == "edges":
-                    part = edge_split.pop(0)
-                    w.add_contact_edges(jnp.array(part) if rng.random() < 0.3 else part)
-                    edges += [tuple(int(v) for v in row) for row in part]
+                    _add_edges(w, rng, sh, geo, part=edge_split.pop(0))
             blobs = []
             for k in range(cfg["n_writes"]):
                 w.write()
-                with open(w.fileName, "rb") as f:
-                    blobs.append(f.read())
+                blobs.append(_read(w.fileName))
                 res.count("files_written")
         except Exception as e:  # the property says every configuration yields a valid file
             res.violate("writer_raised", {"error": "%s: %s" % (type(e).__name__, str(e)[:300]), "cfg": cfg, "order": order})
@@ -311,77 +397,112 @@ def _one_writer(res, case, rng, mesh, order, tmpdir, tag):
             problems.append(str(wmsg.message)[:120])
     res.expect("no_skip_warning", not problems, {"warnings": problems[:3]})
 
-    for name, rec in supplied_nodal.items():
-        if rec["dtype"] == "unsigned_long" and spheres:
-            u64_nodal.add(name)
-    for name, rec in supplied_cell.items():
-        if rec["dtype"] == "unsigned_long" and edges:
-            u64_cell.add(name)
-
     # observation counters for the configuration actually exercised
     res.count("order%d" % order)
-    res.count("spheres_%s" % ("0" if not spheres else "1+"))
-    res.count("edges_%s" % ("0" if not edges else "1+"))
+    res.count("spheres_%s" % ("0" if not sh.spheres else "1+"))
+    res.count("edges_%s" % ("0" if not sh.edges else "1+"))
     res.count("writes_%s" % ("1" if cfg["n_writes"] == 1 else "2+"))
-    if spheres and supplied_nodal and cfg["n_writes"] >= 2:
+    if sh.spheres and sh.nodal and cfg["n_writes"] >= 2:
         res.count("cfg_spheres_and_nodal_and_rewrite")
-    if spheres and cfg["n_writes"] >= 2:
+    if sh.spheres and cfg["n_writes"] >= 2:
         res.count("cfg_spheres_and_rewrite")
-    if spheres and order >= 3:
+    if sh.spheres and order >= 3:
         res.count("cfg_highorder_spheres")
-    if supplied_cell and edges:
+    if sh.cell and sh.edges:
         res.count("cfg_cellfields_and_edges")
-    if not (supplied_nodal or supplied_cell or spheres or edges):
+    if not (sh.nodal or sh.cell or sh.spheres or sh.edges):
         res.count("cfg_bare")
     else:
         res.nontrivial = True
-    if u64_nodal or u64_cell:
+    if any(r["dtype"] == "unsigned_long" for r in sh.nodal.values()) and sh.spheres or \
+            any(r["dtype"] == "unsigned_long" for r in sh.cell.values()) and sh.edges:
         res.count("cfg_uint64_padded")
-    ctx = {"order": order, "n_nodes": nN, "n_elems": nE, "spheres": len(spheres), "edges": len(edges), "writes": cfg["n_writes"],
-           "nodal": {k: (v["kind"], v["dtype"]) for k, v in supplied_nodal.items()},
-           "cell": {k: (v["kind"], v["dtype"]) for k, v in supplied_cell.items()}}
 
     # ---- successive writes are byte-identical
     for k in range(1, len(blobs)):
         res.count("rewrites_compared")
         same = blobs[k] == blobs[0]
-        d = None
-        if not same:
-            a, b = blobs[0].split(b"\n"), blobs[k].split(b"\n")
-            first = next((i for i, (x, y) in enumerate(zip(a, b)) if x != y), min(len(a), len(b)))
-            d = dict(ctx, write=k + 1, lines=[len(a), len(b)], first_diff_line=first + 1,
-                     a=a[first].decode(errors="replace")[:80] if first < len(a) else None,
-                     b=b[first].decode(errors="replace")[:80] if first < len(b) else None)
-        res.expect("rewrite_identical", same, d)
-
+        res.expect("rewrite_identical", same, None if same else sh.ctx(geo, write=k + 1, writes=cfg["n_writes"], **_diff_detail(blobs[0], blobs[k])))
     # ---- parse (every distinct file) and compare with what was supplied
     seen = []
     for k, blob in enumerate(blobs):
         if blob in seen:
             continue
         seen.append(blob)
+        _check_blob(res, blob, sh, geo, k, writes=cfg["n_writes"])
+
+
+# ------------------------------------------------------------------------------------------------------ mutation histories
+
+HIST_OPS = ["nodal", "cell", "sphere", "edges", "write", "rename"]
+
+
+def _history(res, case, rng, geo, tmpdir, tag):
+    """Random sequence of {add_nodal_field, add_cell_field (also overwriting a name), add_sphere, add_contact_edges, write,
+    change of fileName} on one or two writers of the same mesh (interleaved); a write() follows every operation and every
+    written file is compared with what that writer has been given so far.  Two writes with nothing in between must be
+    byte-identical."""
+    from optimism import VTKWriter
+    nw = 2 if rng.random() < 0.35 else 1
+    nops = int(rng.integers(3, 9))
+    writers = []
+    hist = []
+    with warnings.catch_warnings(record=True) as wlist:
+        warnings.simplefilter("always")
         try:
-            text = blob.decode("ascii")
-            if "\r" in text:
-                raise P.VTKFormatError("header", "carriage return in file")
-            parsed = P.parse_text(text)
-        except UnicodeDecodeError:
-            res.violate("wellformed:header", dict(ctx, write=k + 1, error="non-ASCII bytes"))
-            continue
-        except P.VTKFormatError as e:
-            res.checks += 1
-            res.violate("wellformed:" + e.clause, dict(ctx, write=k + 1, error=e.message[:300], at=e.context))
-            continue
-        res.checks += 1
-        res.count("files_parsed")
-        for s in parsed["soft_errors"]:
-            arr = s.get("array", "")
-            nm = arr.split("/")[-1]
-            known = (s["clause"] == "value_token_type" and s.get("dtype") == "unsigned_long" and "floating-point literal" in s.get("why", "")
-                     and ((s.get("section") == "POINT_DATA" and nm in u64_nodal) or (s.get("section") == "CELL_DATA" and nm in u64_cell)))
-            res.expect("wellformed:" + s["clause"], False, dict(ctx, write=k + 1, error=s), mechanism=K_D11D if known else None)
-        _compare(res, parsed, ctx, k, coords, conns, order, vloc, written_nodes_expected, supplied_nodal, supplied_cell,
-                 spheres, radii, edges, u64_nodal, u64_cell)
+            for j in range(nw):
+                writers.append({"w": VTKWriter.VTKWriter(geo.mesh, os.path.join(tmpdir, "h%s_%d" % (tag, j))), "sh": _Shadow(),
+                                "last": None, "nfile": 0, "dirty": True, "j": j})
+            if rng.random() < 0.5:                      # half of the histories start from a written file
+                for W in writers:
+                    W["w"].write()
+                    W["last"] = _read(W["w"].fileName)
+                    W["dirty"] = False
+                    res.count("files_written")
+                    _check_blob(res, W["last"], W["sh"], geo, 0, history="W", writer=W["j"])
+                    res.count("write_after_nothing")
+                hist.append("W*")
+            for step in range(nops):
+                W = writers[int(rng.integers(0, nw))]
+                w, sh = W["w"], W["sh"]
+                op = HIST_OPS[int(rng.choice(len(HIST_OPS), p=[0.2, 0.2, 0.15, 0.25, 0.12, 0.08]))]
+                if op in ("nodal", "cell"):
+                    op = _add_field(res, w, rng, sh, geo, op, p_replace=0.3)
+                    W["dirty"] = True
+                elif op == "sphere":
+                    _add_sphere(w, rng, sh)
+                    W["dirty"] = True
+                elif op == "edges":
+                    _add_edges(w, rng, sh, geo, n=int(rng.integers(1, 4)))
+                    W["dirty"] = True
+                elif op == "rename":
+                    W["nfile"] += 1
+                    w.fileName = os.path.join(tmpdir, "h%s_%d_renamed%d.vtk" % (tag, W["j"], W["nfile"]))
+                hist.append("%s%d" % ({"nodal": "N", "cell": "C", "overwrite": "O", "sphere": "S", "edges": "E", "write": "W", "rename": "R"}[op], W["j"]))
+                # a write after every operation
+                w.write()
+                blob = _read(w.fileName)
+                res.count("files_written")
+                res.count("write_after_" + op)
+                hs = " ".join(hist)
+                if not W["dirty"] and W["last"] is not None:
+                    res.count("rewrites_compared")
+                    same = blob == W["last"]
+                    res.expect("rewrite_identical", same, None if same else sh.ctx(geo, history=hs, step=step, **_diff_detail(W["last"], blob)))
+                _check_blob(res, blob, sh, geo, step, history=hs, writer=W["j"], step=step)
+                W["last"] = blob
+                W["dirty"] = False
+        except Exception as e:
+            res.violate("writer_raised", {"error": "%s: %s" % (type(e).__name__, str(e)[:300]), "history": " ".join(hist), "order": geo.order})
+            return
+    problems = [str(m.message)[:120] for m in wlist if "VTKWriter" in str(m.message)]
+    res.expect("no_skip_warning", not problems, {"warnings": problems[:3], "history": " ".join(hist)})
+    res.count("histories")
+    res.count("history_ops", nops)
+    if nw == 2:
+        res.count("histories_two_writers_interleaved")
+    res.count("order%d" % geo.order)
+    res.nontrivial = True
 
 
 def _compare(res, parsed, ctx, k, coords, conns, order, vloc, written_nodes_expected, supplied_nodal, supplied_cell,
@@ -524,10 +645,14 @@ def run_case(case):
     mesh, spec = _mesh_for(case, rng)
     order = int(spec["order"])
     res.count("mesh_" + spec["kind"])
+    geo = _Geo(mesh, order)
     tmpdir = tempfile.mkdtemp(prefix="verif_c20_")
     try:
         for k in range(int(case["ncfg"])):
-            _one_writer(res, case, rng, mesh, order, tmpdir, str(k))
+            if case["cls"] == "history":
+                _history(res, case, rng, geo, tmpdir, str(k))
+            else:
+                _one_writer(res, case, rng, geo, tmpdir, str(k))
             res.count("writers")
     finally:
         shutil.rmtree(tmpdir, ignore_errors=True)
